@@ -20,6 +20,7 @@ CONSTANTS
   AllowRollback = @ROLLBACK@
   AllowDelete = TRUE
   AllowInsert = TRUE
+  Keyed = FALSE
   LateInitSel = FALSE
   Rep = "rep"
   ReplayAtEnd = TRUE
